@@ -41,7 +41,10 @@ def run_one(m):
         except SyntaxError as e:
             return m, 'STALE', 'mutant does not compile: %s' % e
         env = dict(os.environ, VERIF_REPO=d, VERIF_EVIDENCE_DIR=os.path.join(d, 'evidence'), VERIF_REPLAY_DIR=os.path.join(d, 'replay'))
-        r = subprocess.run([os.path.join(HERE, 'check'), m['property'], '--tier', 'quick'], capture_output=True, text=True, env=env, timeout=3000)
+        # optional "only": restrict the check to the contracts whose key contains this text (a property with many
+        # bounded contract instances is otherwise re-checked in full for every entry); the ledger is restricted alike
+        only = ['--only', m['only']] if m.get('only') else []
+        r = subprocess.run([os.path.join(HERE, 'check'), m['property'], '--tier', 'quick'] + only, capture_output=True, text=True, env=env, timeout=3000)
         out = r.stdout + r.stderr
         kind = m.get('kind', 'kill')
         if kind == 'kill':
